@@ -359,6 +359,18 @@ impl Storage {
             }
         }
 
+        // The pending matched blocks are discarded below. The scripts which are kept (`partial`
+        // and `delete` don't touch the other scripts) still need them, so the filter syncing has
+        // to restart before the earliest discarded range.
+        if !matches!(command, SetScriptsCommand::All) {
+            if let Some((start_number, _, _)) = self.get_earliest_matched_blocks() {
+                let rewind_to = start_number.saturating_sub(1);
+                let current =
+                    min_block_number.unwrap_or_else(|| self.get_min_filtered_block_number());
+                min_block_number = Some(current.min(rewind_to));
+            }
+        }
+
         // The min filtered block number has to be updated atomically with the scripts;
         // otherwise, if the process is killed in the middle, the blocks before the previous
         // min filtered block number will never be filtered for the new scripts.
